@@ -505,6 +505,69 @@ def versionhash_clauses(ck, rng):
         cs.os = real_os
 
 
+def filesystem_clauses(ck):
+    """situations of the file system that are legal and change nothing: the dependency GIR reached through a symbolic link (the entry
+    is older than the file behind the link as soon as that file is rewritten), and a cache directory whose path has characters that
+    mean something to glob (a build directory "build[py3.11]"): a change of scanner version still discards every entry"""
+    sys.path.insert(0, REPO)
+    import giscanner.cachestore as cs
+    from giscanner.transformer import Transformer
+    from giscanner import ast
+    root = tempfile.mkdtemp(prefix='giv18fs')
+    old_xdg = os.environ.get('XDG_CACHE_HOME')
+    try:
+        # ---- symbolic link
+        os.environ['XDG_CACHE_HOME'] = os.path.join(root, 'cache')
+        os.makedirs(os.path.join(root, 'real'))
+        real = os.path.join(root, 'real', 'Dep-1.0.gir')
+        link = os.path.join(root, 'Dep-1.0.gir')
+        open(real, 'w').write(GIR % 1)
+        os.utime(real, (1000, 1000))
+        can_link = True
+        try:
+            os.symlink(real, link)
+            os.utime(link, (500, 500), follow_symlinks=False)       # the link itself is older than anything below
+        except (OSError, NotImplementedError):
+            can_link = False
+        if can_link:
+            def scan():
+                t = Transformer(ast.Namespace('Main', '1.0'))
+                t.set_passthrough_mode()
+                return int(t._parse_include(link).get_namespace().symbol_prefixes[0][1:])
+            first = scan()
+            open(real, 'w').write(GIR % 2)
+            os.utime(real, (3000, 3000))
+            second = scan()
+            ck.count_case(dict(scenario='dependency GIR behind a symbolic link, rewritten between two scans'), kind='filesystem')
+            if (first, second) != (1, 2):
+                ck.failing_input('a dependency GIR reached through a symbolic link was rewritten, and the next scan still got the old parse '
+                                 'from the cache', dict(link='Dep-1.0.gir -> real/Dep-1.0.gir', link_mtime=500, target_mtime_first_scan=1000,
+                                                        target_mtime_second_scan=3000), detail=dict(versions_seen=[first, second], expected=[1, 2]))
+        # ---- a cache path with glob characters
+        cdir = os.path.join(root, 'build[py3.11]*?')
+        os.environ['XDG_CACHE_HOME'] = cdir
+        src = os.path.join(root, 'real', 'Dep-1.0.gir')
+        store = cs.CacheStore()
+        store.store(src, dict(payload='from the old scanner'))
+        held = store.load(src)
+        vfile = os.path.join(store._directory, cs._CACHE_VERSION_FILENAME)
+        open(vfile, 'w').write('0' * 40)                 # what another scanner version left there
+        after = cs.CacheStore().load(src)
+        ck.count_case(dict(scenario='cache directory with glob characters in its path, scanner version changed'), kind='filesystem')
+        if held is None:
+            ck.tie_broken('harness', 'the cache with glob characters in its path does not hold the entry that was just stored')
+        elif after is not None:
+            ck.failing_input('a change of scanner version does not discard the entries of a cache whose path has glob characters',
+                             dict(cache_home='.../build[py3.11]*?', version_file_before='0000...', entry='stored by the old version'),
+                             detail=dict(loaded_after_the_version_change=repr(after)[:80]))
+    finally:
+        if old_xdg is None:
+            os.environ.pop('XDG_CACHE_HOME', None)
+        else:
+            os.environ['XDG_CACHE_HOME'] = old_xdg
+        shutil.rmtree(root, ignore_errors=True)
+
+
 def truncation_sweep(ck, thorough):
     """an unreadable or truncated entry is discarded instead of raising: every cut of a real entry"""
     import pickle as real_pickle
@@ -686,6 +749,7 @@ def main(tier, seed):
     # ---- truncated entries
     truncation_sweep(ck, tier == 'thorough')
     versionhash_clauses(ck, rng)
+    filesystem_clauses(ck)
     # ---- scanner-version change (Model/C18V.v)
     vruns = [V_WITNESS, V_WITNESS2] + [gen_version_events(rng) for _ in range(60 if tier == 'quick' else 800)]
     vres = []
